@@ -9,7 +9,6 @@ import (
 	"slices"
 	"strings"
 
-	"github.com/grpc-ecosystem/grpc-gateway/v2/utilities"
 	"github.com/renbou/grpcbridge/internal/gwquery"
 	"github.com/renbou/grpcbridge/internal/httperr"
 	"google.golang.org/grpc/codes"
@@ -189,7 +188,7 @@ func newRequestTranscoder(bt *boundTranscoder, marshaler Marshaler) HTTPRequestT
 type standardRequestTranscoder struct {
 	*boundTranscoder
 	marshaler   Marshaler
-	queryFilter *utilities.DoubleArray
+	queryFilter gwquery.Filter
 }
 
 // Transcode transcodes a new request according to the rules specified in http.proto,
@@ -245,7 +244,7 @@ func (t *standardRequestTranscoder) shouldParseQuery() bool {
 	return t.req.Binding.RequestBodyPath != wildcardFieldPath
 }
 
-func (t *standardRequestTranscoder) queryParamFilter() *utilities.DoubleArray {
+func (t *standardRequestTranscoder) queryParamFilter() gwquery.Filter {
 	if t.queryFilter != nil {
 		return t.queryFilter
 	}
@@ -264,7 +263,7 @@ func (t *standardRequestTranscoder) queryParamFilter() *utilities.DoubleArray {
 		seqs = append(seqs, strings.Split(k, fieldPathSep))
 	}
 
-	t.queryFilter = utilities.NewDoubleArray(seqs)
+	t.queryFilter = gwquery.PrefixFilter(seqs)
 
 	return t.queryFilter
 }
